@@ -402,10 +402,15 @@ def hdf5_abs_dest_quirk(ref, op):
         dst = dst.rstrip("/") + "/" + op["src"].rstrip("/").rsplit("/", 1)[-1]
     if not dst.startswith("/"):
         return False
-    first = dst.strip("/").split("/")[0]
+    rel = dst.strip("/")
+    first = rel.split("/")[0]
     try:
         g = ref[op["base"]]
         if first in g and not hasattr(g[first], "keys"):
+            return True
+        if rel and rel in g:
+            # ... or when the destination path, read relative to G, names an existing object
+            # ('destination object already exists' although the absolute path is free)
             return True
     except Exception:
         return False
